@@ -202,26 +202,26 @@ Record frac_ok (f : fraction) : Prop := {
 }.
 
 Lemma pruned_fraction_empty : forall f qf qt,
-  frac_ok f -> 0 <= qf -> qt < two63 ->
+  frac_ok f -> 0 <= qf ->
   info_is_intersecting (f_info f) qf qt = false -> filter (in_range qf qt) (f_ids f) = [].
 Proof.
-  intros f qf qt [Hids Hs Hm [c [Hc Hi]]] H0 Ht Hf.
+  intros f qf qt [Hids Hs Hm [c [Hc Hi]]] H0 Hf.
   apply filter_none. intros x Hx.
   destruct (in_range qf qt x) eqn:E; auto. exfalso.
   unfold in_range in E. apply andb_true_iff in E. destruct E as [E1 E2].
   apply Z.leb_le in E1. apply Z.leb_le in E2.
   assert (Hin : In (fst x) (mids_of (f_ids f))) by (apply in_map; exact Hx).
-  destruct (intersect_sound c (mids_of (f_ids f)) (fst x) qf qt Hc Hm Hin H0 E1 E2 Ht) as [A [B _]].
+  destruct (intersect_sound c (mids_of (f_ids f)) (fst x) qf qt Hc Hm Hin H0 E1 E2) as [A [B _]].
   destruct Hi as [Hi|Hi]; rewrite Hi in Hf; congruence.
 Qed.
 
 (* thm:C14_pruning_is_optimisation *)
 Theorem pruning_is_optimisation : forall fs qf qt,
-  Forall frac_ok fs -> 0 <= qf -> qt < two63 ->
+  Forall frac_ok fs -> 0 <= qf ->
   (qf = 0 -> forall f, In f fs -> ~ In (0, 0) (f_ids f)) ->
   pruned_scan fs qf qt = Some (full_scan fs qf qt).
 Proof.
-  intros fs qf qt Hall H0 Ht Hz. unfold pruned_scan, full_scan, filter_in_range.
+  intros fs qf qt Hall H0 Hz. unfold pruned_scan, full_scan, filter_in_range.
   induction fs as [|f fs IH]; [reflexivity|].
   inversion Hall as [|? ? Hf Hrest]; subst.
   assert (IH' := IH Hrest (fun Hq g Hg => Hz Hq g (or_intror Hg))). clear IH.
@@ -229,21 +229,21 @@ Proof.
   - simpl. rewrite (frac_scan_spec f qf qt (fo_ids f Hf) (fo_sorted f Hf) H0
                       (fun Hq => Hz Hq f (or_introl eq_refl))).
     rewrite IH'. reflexivity.
-  - rewrite (pruned_fraction_empty f qf qt Hf H0 Ht E). simpl. exact IH'.
+  - rewrite (pruned_fraction_empty f qf qt Hf H0 E). simpl. exact IH'.
 Qed.
 
 (* fetch side (fracmanager/fetcher.go groupIDsByFraction): a stored document's fraction survives
    FilterInRange(min, max) over the requested IDs and Contains(mid) *)
 Theorem fetch_candidates_sound : forall f x lo hi,
-  frac_ok f -> In x (f_ids f) -> 0 <= lo -> lo <= fst x -> fst x <= hi -> hi < two63 ->
+  frac_ok f -> In x (f_ids f) -> 0 <= lo -> lo <= fst x -> fst x <= hi ->
   info_is_intersecting (f_info f) lo hi = true /\
   info_is_intersecting (f_info f) (fst x) (fst x) = true.
 Proof.
-  intros f x lo hi [Hids Hs Hm [c [Hc Hi]]] Hx H0 H1 H2 H3.
+  intros f x lo hi [Hids Hs Hm [c [Hc Hi]]] Hx H0 H1 H2.
   assert (Hin : In (fst x) (mids_of (f_ids f))) by (apply in_map; exact Hx).
   pose proof (Hm _ Hin) as Rx.
-  destruct (intersect_sound c _ (fst x) lo hi Hc Hm Hin H0 H1 H2 H3) as [A [B _]].
-  destruct (intersect_sound c _ (fst x) (fst x) (fst x) Hc Hm Hin ltac:(lia) ltac:(lia) ltac:(lia) ltac:(lia))
+  destruct (intersect_sound c _ (fst x) lo hi Hc Hm Hin H0 H1 H2) as [A [B _]].
+  destruct (intersect_sound c _ (fst x) (fst x) (fst x) Hc Hm Hin ltac:(lia) ltac:(lia) ltac:(lia))
     as [A' [B' _]].
   destruct Hi as [Hi|Hi]; rewrite Hi; auto.
 Qed.
